@@ -23,8 +23,8 @@ func (e *Exec) verifyFunction(fn *ssa.Function, sp *FuncSpec) {
 		v := e.freshSV("in."+p.Name(), p.Type())
 		e.wfAssume(st, v)
 		args = append(args, v)
-		vars[p.Name()] = v
 	}
+	bindParams(fn, func(i int, p *ssa.Parameter) (SV, bool) { return args[i], true }, vars)
 	var binds []SV
 	for _, fv := range fn.FreeVars {
 		v := e.freshSV("fv."+fv.Name(), fv.Type())
@@ -533,7 +533,8 @@ func (o *Obligation) Query(withModel bool) string {
 func (o *Obligation) Discharged() bool {
 	if o.Cover {
 		// vacuity guard: the path condition must not be provably contradictory
-		return o.Res.Status != "unsat" && o.Res.Status != "error"
+		// (a solver that was killed or ran out of time says nothing; an SMT-level error in the query does)
+		return o.Res.Status != "unsat" && !(o.Res.Status == "error" && strings.Contains(o.Res.Output, "(error"))
 	}
 	return o.Res.Status == "unsat"
 }
